@@ -16,7 +16,15 @@
 (*               aug-target-before-value), given per skeleton by an independent walk        *)
 (*   RaiseLast   a raising primitive is the last event: the machine completes with that     *)
 (*               exception and demands nothing more                                         *)
-(*   Witness_*   (expected to be VIOLATED) non-vacuity: raises in the middle, short-circuits *)
+(*   ScopeRestored  a name that the program binds ONLY as a comprehension loop variable      *)
+(*               (Skels[sk].scoped, computed by an independent walk of the ast) has, after   *)
+(*               every completed run - normal or raising - exactly the binding it had        *)
+(*               before: bound to the same value, or still unbound.  The skeletons pre-bind  *)
+(*               such names (env0) to None, a falsy scalar, a recorder object, or not at all.*)
+(*               Run with the deviation flag comp-leak-on-raise (Skels[sk].fl) the theorem   *)
+(*               must be VIOLATED: it separates the machine from its leaking variant.        *)
+(*   Witness_*   (expected to be VIOLATED) non-vacuity: raises in the middle, short-circuits, *)
+(*               a shadowing loop variable is read inside, a raise while it is shadowed      *)
 EXTENDS PyExprCore
 
 ASSUME TLCSet(2, JsonDeserialize(IOEnv.SKELS))
@@ -27,8 +35,13 @@ Opts0 == [cmpbool |-> FALSE, noinplace |-> FALSE, quietstr |-> FALSE]
 VARIABLES sk, tr, res        \* res: summary of the machine's run on tr (computed once per state)
 vars == <<sk, tr, res>>
 
-Run(s, t) == Exec(Skels[s].body, 1, St0({}, Opts0, ""), t, Skels[s].env0)
-Summ(r, t) == [ok |-> r.st.ok, nm |-> r.st.nm, want |-> r.st.want, x |-> r.x, complete |-> r.st.ok /\ r.st.l = Len(t) + 1]
+FlagsOf(s) == {Skels[s].fl[j] : j \in 1..Len(Skels[s].fl)}
+ScopedOf(s) == {Skels[s].scoped[j] : j \in 1..Len(Skels[s].scoped)}
+Run(s, t) == Exec(Skels[s].body, 1, St0(FlagsOf(s), Opts0, ""), t, Skels[s].env0)
+\* senv: the final bindings of the scoped names; xval: the final value of x (witnesses only)
+Summ(s, r, t) == [ok |-> r.st.ok, nm |-> r.st.nm, want |-> r.st.want, x |-> r.x, complete |-> r.st.ok /\ r.st.l = Len(t) + 1,
+                  senv |-> [m \in ScopedOf(s) \cap DOMAIN r.env |-> r.env[m]],
+                  xval |-> IF "x" \in DOMAIN r.env THEN r.env["x"] ELSE NoneV]
 
 NewV(b) == [k |-> "v", id |-> 100 + Len(tr), b |-> b]
 Ev(w, r, x) == [e |-> w.e, op |-> w.op, n |-> w.n, xs |-> w.xs, names |-> w.names, r |-> r, x |-> x]
@@ -44,11 +57,11 @@ Outcomes(w) ==
     [] w.e = "keys" -> {Ev(w, SeqV("list", <<StrC("ka")>>), "")}
     [] OTHER -> {Ev(w, NewV(TRUE), "")}
 
-Init == sk \in 1..Len(Skels) /\ tr = <<>> /\ res = Summ(Run(sk, <<>>), <<>>)
+Init == sk \in 1..Len(Skels) /\ tr = <<>> /\ res = Summ(sk, Run(sk, <<>>), <<>>)
 Next == /\ ~res.ok /\ ~res.nm /\ res.want.e # ""
         /\ \E ev \in Outcomes(res.want) : tr' = Append(tr, ev)
         /\ UNCHANGED sk
-        /\ res' = Summ(Run(sk, tr'), tr')
+        /\ res' = Summ(sk, Run(sk, tr'), tr')
 Spec == Init /\ [][Next]_vars
 
 \* ------------------------------------------------------------------ theorems
@@ -75,7 +88,13 @@ RaiseLast == /\ \A i \in 1..Len(tr) : tr[i].x = "Err" => i = Len(tr)
 \* a completed run without a raise never ends in an exception the oracle did not inject
 NoSpontaneous == (res.complete /\ ~Raised) => res.x \in {"", "ValueError", "NameError", "TypeError"}
 
-Theorems == NoStuck /\ AtMostOnce /\ InOrder /\ InOrderLoop /\ RaiseLast /\ NoSpontaneous
+\* comprehension loop variables live in the comprehension's own scope
+Env0 == Skels[sk].env0
+ScopeRestored == res.complete => \A m \in ScopedOf(sk) :
+                   /\ (m \in DOMAIN res.senv) = (m \in DOMAIN Env0)
+                   /\ (m \in DOMAIN Env0 => res.senv[m] = Env0[m])
+
+Theorems == NoStuck /\ AtMostOnce /\ InOrder /\ InOrderLoop /\ RaiseLast /\ NoSpontaneous /\ ScopeRestored
 
 \* ------------------------------------------------------------------ witnesses (must be violated)
 NLeaves == Len(Skels[sk].leaves)
@@ -83,4 +102,31 @@ Evaluated == Cardinality({n \in {Skels[sk].leaves[j].n : j \in 1..NLeaves} : Cou
 Witness_NoMidRaise == ~(Raised /\ Evaluated < NLeaves)                                 \* a raise abandons later operands
 Witness_NoShortCircuit == ~(res.complete /\ ~Raised /\ res.x = "" /\ Evaluated < NLeaves)
 Witness_NoLoopTwice == ~(\E j \in 1..NLeaves : Count(Skels[sk].leaves[j].n) >= 2)
+\* scope: a loop variable that shadows an enclosing binding is read INSIDE as the delivered item (the value of x
+\* contains an object delivered by `next`), and a primitive raises while the enclosing binding is shadowed
+Shadowing == ScopedOf(sk) \cap DOMAIN Env0 # {}
+DeliveredVals == {tr[i].r : i \in {j \in 1..Len(tr) : tr[j].e = "next" /\ tr[j].x = ""}}
+Witness_NoShadowedRead == ~(res.complete /\ res.x = "" /\ Shadowing /\ res.xval.k = "seq"
+                            /\ \E j \in 1..Len(res.xval.e) : res.xval.e[j] \in DeliveredVals)
+Witness_NoRaiseWhileShadowed == ~(res.complete /\ res.x = "Err" /\ Shadowing /\ Delivered > 0)
+
+\* All witnesses in ONE run (one worker): the invariant fails as soon as every witness condition has been observed
+\* in some reachable state; register 3 collects the names seen so far, each is announced by an INFO line.  The
+\* skeleton file of this run also holds the scope skeletons with fl = {comp-leak-on-raise}: on those the witness is
+\* a violation of the theorem ScopeRestored (the theorem separates the machine from its leaking variant).
+ASSUME TLCSet(3, {})
+Plain == FlagsOf(sk) = {}
+WitnessNames == {"mid-raise", "short-circuit", "loop-twice", "shadowed-read", "raise-while-shadowed", "leak-violates-ScopeRestored"}
+WitnessNow == {w \in WitnessNames :
+                 CASE w = "mid-raise" -> Plain /\ ~Witness_NoMidRaise
+                   [] w = "short-circuit" -> Plain /\ ~Witness_NoShortCircuit
+                   [] w = "loop-twice" -> Plain /\ ~Witness_NoLoopTwice
+                   [] w = "shadowed-read" -> Plain /\ ~Witness_NoShadowedRead
+                   [] w = "raise-while-shadowed" -> Plain /\ ~Witness_NoRaiseWhileShadowed
+                   [] OTHER -> ~Plain /\ ~ScopeRestored}
+Witness_All == LET new == WitnessNow \ TLCGet(3) IN
+               IF new = {} THEN TRUE
+               ELSE /\ \A w \in new : PrintT("INFO " \o ToJson([witness |-> w]))
+                    /\ TLCSet(3, TLCGet(3) \cup new)
+                    /\ TLCGet(3) # WitnessNames
 =============================================================================
